@@ -8,6 +8,8 @@ import (
 	"fmt"
 	"io"
 	"net/netip"
+	"os"
+	"path/filepath"
 	"sort"
 	"strings"
 
@@ -175,4 +177,21 @@ func SortedNames(m *refmodel.Model) []string {
 	}
 	sort.Strings(out)
 	return out
+}
+
+// BreakDir makes every save of the database at dbPath fail while f runs, by
+// moving the database's directory away (the temporary file can then not be
+// created). The database must live in a directory of its own.
+func BreakDir(dbPath string, f func()) {
+	dir := filepath.Dir(dbPath)
+	away := dir + ".away"
+	if err := os.Rename(dir, away); err != nil {
+		panic(err)
+	}
+	defer func() {
+		if err := os.Rename(away, dir); err != nil {
+			panic(err)
+		}
+	}()
+	f()
 }
